@@ -40,7 +40,10 @@ ALPHABET_WIDE = ("tA+6", "tA+5", "tA=", "tA-3", "tB+6", "bounce", "tAB+6", "tB-3
 # (alphabet, depth) explored per tier; thorough contains the quick space
 # a run_started for the active run delivered again in the middle of the stream (buffered / re-sent after a reconnect)
 ALPHABET_RESENT = ("tA+6", "tA+3", "rs1", "tB+6", "tA=")
-PLAN = {"quick": [(ALPHABET_QUICK, 6), (ALPHABET_RESENT, 4)], "thorough": [(ALPHABET_DEEP, 7), (ALPHABET_WIDE, 6), (ALPHABET_RESENT, 6)]}
+# a Mark (system tag, text value) reported between two samples of the readings
+ALPHABET_MARK = ("tA+6", "tA+2", "tM+1", "tB+2", "tM+6")
+PLAN = {"quick": [(ALPHABET_QUICK, 6), (ALPHABET_RESENT, 4), (ALPHABET_MARK, 5)],
+        "thorough": [(ALPHABET_DEEP, 7), (ALPHABET_WIDE, 6), (ALPHABET_RESENT, 6), (ALPHABET_MARK, 7)]}
 
 
 def _row_step(obs):
